@@ -199,6 +199,10 @@ pub fn catalogue() -> Vec<Problem> {
         // estimate that looks at one component only, or at the smallest one, is blind on them
         Problem { name: "sum2:lin+1+rest", blocks: vec![Lin(1.0), Rest], rotated: false, u0: vec![1.0, 0.75] },
         Problem { name: "sum2:rest+lin+1", blocks: vec![Rest, Lin(1.0)], rotated: false, u0: vec![0.75, 1.0] },
+        // a large component at rest beside a small moving one: the local error is (nearly) orthogonal to the state, so an
+        // estimate that only sees the change of the NORM of the state is blind to it
+        Problem { name: "sum2:bigrest+lin+1", blocks: vec![Rest, Lin(1.0)], rotated: false, u0: vec![40.0, 1.0] },
+        Problem { name: "sum3:bigrest+osc1", blocks: vec![Rest, Osc(1.0)], rotated: false, u0: vec![40.0, 1.0, 0.0] },
         Problem { name: "sum2:lin+1+lin-2", blocks: vec![Lin(1.0), Lin(-2.0)], rotated: false, u0: vec![1.0, 1.0] },
         Problem { name: "rot2:lin-2+logistic", blocks: vec![Lin(-2.0), Logistic], rotated: true, u0: vec![0.8, 0.3] },
         Problem { name: "rot2:cost+relax", blocks: vec![CosT, Relax], rotated: true, u0: vec![-0.6, 2.0] },
